@@ -1,4 +1,5 @@
 mod core;
+mod lsp;
 mod props;
 
 use crate::core::Tier;
@@ -41,6 +42,8 @@ fn check(prop: &str, tier: Tier) -> i32 {
     match prop {
         "C01" => props::parser::run(props::parser::Which::C01, tier),
         "C02" => props::parser::run(props::parser::Which::C02, tier),
+        "C13" => props::positions::run_c13(tier),
+        "C14" => props::positions::run_c14(tier),
         _ => {
             eprintln!("unknown property {prop}");
             2
@@ -62,6 +65,8 @@ fn replay(path: &str) -> i32 {
     let fails: Vec<String> = match prop {
         "C01" => props::parser::replay(props::parser::Which::C01, w),
         "C02" => props::parser::replay(props::parser::Which::C02, w),
+        "C13" => props::positions::replay_c13(w),
+        "C14" => props::positions::replay_c14(w),
         _ => {
             eprintln!("unknown property {prop}");
             return 2;
